@@ -171,6 +171,23 @@ type Args struct {
 	Rate  float64           `json:"rate,omitempty"`
 }
 
+// Tagged: jsonschema tags in both formats on a compile-time type: patterns Go's RE2 cannot compile although they are
+// legal JSON Schema (look-ahead, back-reference), a comma inside a pattern group (the legacy splitter cuts it), an enum
+// with commas, a description with `,` `=` `"`, odd bounds, an unknown keyword, an empty value.
+type Tagged struct {
+	ID    int      `json:"id"`
+	Code  string   `json:"code" jsonschema:"pattern=^(?!tmp)[a-z]+$"`
+	Pair  string   `json:"pair" jsonschema:"required,pattern=^(a,b)$"`
+	Twin  string   `json:"twin,omitempty" jsonschema:"description=doubled letter;pattern=(\\w)\\1;minLength=2"`
+	Mode  string   `json:"mode" jsonschema:"enum=fast,enum=slow,careful,default=fast"`
+	Level float64  `json:"level" jsonschema:"minimum=-0;maximum=007.50;frob=1"`
+	Note  string   `json:"note,omitempty" jsonschema:"description=a, b=c, \"q\",maxLength=,title=t"`
+	Tags  []string `json:"tags" jsonschema:"uniqueItems,minItems=1,maxItems=+3"`
+	Inner struct {
+		Key string `json:"key" jsonschema:"pattern=(?<=x)y;required"`
+	} `json:"inner"`
+}
+
 type corpusEntry struct {
 	name      string
 	t         reflect.Type
@@ -198,5 +215,6 @@ func corpus() []corpusEntry {
 		{"Stamp", reflect.TypeOf(Stamp{}), "time", false},
 		{"Raw", reflect.TypeOf(Raw{}), "bytes", false},
 		{"Outer", reflect.TypeOf(Outer{}), "embedded", false},
+		{"Tagged", reflect.TypeOf(Tagged{}), "js-tags", false},
 	}
 }
